@@ -272,26 +272,38 @@ Fixpoint script (fx : bool) (s : state) (os : list op) : state :=
   | o :: r => script fx (api_snap fx s o) r
   end.
 
-(* body of the for loop of uv__signal_event for one message *)
-Definition process_msg (fx : bool) (beh : nat -> list op) (s : state) (m : msg) : state :=
+(* body of the for loop of uv__signal_event for one message (h, sig); [r] = the
+   messages of the buffer that come after it *)
+
+(* the callback is entered: event, snapshot (ghost of the harness), next behaviour *)
+Definition cb_enter (s : state) (h sig : nat) : state :=
+  let s' := snap (log s (ECb h sig)) in
+  with_cbcount s' (S (cbcount s')).
+
+(* after the callback (or without one): dispatched_signals++, one-shot stop *)
+Definition msg_finish (s : state) (h : nat) (r : list msg) : state :=
+  let s2 := upd_h (with_batch s r) h h_inc_dispatched in
+  if h_oneshot (get s2 h) then sig_stop s2 h else s2.
+
+Definition process_msg (fx : bool) (beh : nat -> list op) (s : state) (m : msg) (r : list msg) : state :=
   let h := fst m in
   let sig := snd m in
-  let s1 :=
-    if sig =? h_signum (get s h) then
-      let s' := snap (log s (ECb h sig)) in
-      let k := cbcount s' in
-      log (script fx (with_cbcount s' (S k)) (beh k)) (ECbEnd h)
-    else s in
-  let s2 := upd_h s1 h h_inc_dispatched in
-  if h_oneshot (get s2 h) then sig_stop s2 h else s2.
+  if sig =? h_signum (get s h) then
+    let s1 := script fx (cb_enter s h sig) (beh (cbcount s)) in
+    msg_finish (log s1 (ECbEnd h)) h r
+  else msg_finish s h r.
 
 Fixpoint process_msgs (fx : bool) (beh : nat -> list op) (s : state) (b : list msg) : state :=
   match b with
   | [] => s
-  | m :: r => process_msgs fx beh (process_msg fx beh (with_batch s r) m) r
+  | m :: r => process_msgs fx beh (process_msg fx beh s m r) r
   end.
 
 Definition batch_size : nat := 32.
+
+(* one successful read(): up to 32 messages move from the pipe into the buffer *)
+Definition take_batch (s : state) (l : nat) : state :=
+  with_batch (set_pipe s l (skipn batch_size (pipe_of s l))) (firstn batch_size (pipe_of s l)).
 
 (* uv__signal_event: read up to 32 messages, handle them, go on only while a
    full buffer was read *)
@@ -299,27 +311,25 @@ Fixpoint signal_event (fx : bool) (beh : nat -> list op) (fuel : nat) (s : state
   match fuel with
   | O => s
   | S f =>
-      let b := firstn batch_size (pipe_of s l) in
-      match b with
-      | [] => s
+      match pipe_of s l with
+      | [] => s                                                  (* EAGAIN with an empty buffer *)
       | _ :: _ =>
-          let s1 := with_batch (set_pipe s l (skipn batch_size (pipe_of s l))) b in
-          let s2 := process_msgs fx beh s1 b in
-          if length b =? batch_size then signal_event fx beh f s2 l else s2
+          let s1 := take_batch s l in
+          let s2 := process_msgs fx beh s1 (batch s1) in
+          if length (batch s1) =? batch_size then signal_event fx beh f s2 l else s2
       end
   end.
 
 (* uv__run_closing_handles / uv__finish_close for signal handles *)
+Definition finish_close (s : state) (l h : nat) : state :=
+  if h_dispatched (get s h) <? h_caught (get s h)
+  then set_clq s l (h :: clq_of s l)                            (* back into the queue *)
+  else log (upd_h s h h_set_closed) (ECloseCb h).
+
 Fixpoint finish_all (s : state) (l : nat) (q : list nat) : state :=
   match q with
   | [] => s
-  | h :: r =>
-      let hd := get s h in
-      let s1 :=
-        if h_dispatched hd <? h_caught hd
-        then set_clq s l (h :: clq_of s l)                      (* back into the queue *)
-        else log (upd_h s h h_set_closed) (ECloseCb h) in
-      finish_all s1 l r
+  | h :: r => finish_all (finish_close s l h) l r
   end.
 
 Definition run_closing (s : state) (l : nat) : state :=
